@@ -12,6 +12,7 @@ package datastore
 
 import (
 	"context"
+	"sync"
 
 	"github.com/sourcenetwork/corekv"
 
@@ -79,6 +80,9 @@ type BasicTxn struct {
 	txn corekv.Txn
 	id  uint64
 
+	// callbackMu guards the callback lists below, a transaction may be shared by concurrent calls.
+	callbackMu sync.Mutex
+
 	successFns []func()
 	errorFns   []func()
 	discardFns []func()
@@ -110,6 +114,7 @@ func (t *BasicTxn) Commit(ctx context.Context) error {
 	var asyncFns []func()
 
 	err := t.txn.Commit()
+	t.callbackMu.Lock()
 	if err != nil {
 		fns = t.errorFns
 		asyncFns = t.errorAsyncFns
@@ -117,6 +122,7 @@ func (t *BasicTxn) Commit(ctx context.Context) error {
 		fns = t.successFns
 		asyncFns = t.successAsyncFns
 	}
+	t.callbackMu.Unlock()
 
 	for _, fn := range asyncFns {
 		go fn()
@@ -130,35 +136,52 @@ func (t *BasicTxn) Commit(ctx context.Context) error {
 func (t *BasicTxn) Discard(ctx context.Context) {
 	t.txn.Discard()
 
-	for _, fn := range t.discardAsyncFns {
+	t.callbackMu.Lock()
+	fns := t.discardFns
+	asyncFns := t.discardAsyncFns
+	t.callbackMu.Unlock()
+
+	for _, fn := range asyncFns {
 		go fn()
 	}
-	for _, fn := range t.discardFns {
+	for _, fn := range fns {
 		fn()
 	}
 }
 
 func (t *BasicTxn) OnSuccess(fn func()) {
+	t.callbackMu.Lock()
+	defer t.callbackMu.Unlock()
 	t.successFns = append(t.successFns, fn)
 }
 
 func (t *BasicTxn) OnError(fn func()) {
+	t.callbackMu.Lock()
+	defer t.callbackMu.Unlock()
 	t.errorFns = append(t.errorFns, fn)
 }
 
 func (t *BasicTxn) OnDiscard(fn func()) {
+	t.callbackMu.Lock()
+	defer t.callbackMu.Unlock()
 	t.discardFns = append(t.discardFns, fn)
 }
 
 func (t *BasicTxn) OnSuccessAsync(fn func()) {
+	t.callbackMu.Lock()
+	defer t.callbackMu.Unlock()
 	t.successAsyncFns = append(t.successAsyncFns, fn)
 }
 
 func (t *BasicTxn) OnErrorAsync(fn func()) {
+	t.callbackMu.Lock()
+	defer t.callbackMu.Unlock()
 	t.errorAsyncFns = append(t.errorAsyncFns, fn)
 }
 
 func (t *BasicTxn) OnDiscardAsync(fn func()) {
+	t.callbackMu.Lock()
+	defer t.callbackMu.Unlock()
 	t.discardAsyncFns = append(t.discardAsyncFns, fn)
 }
 
